@@ -157,6 +157,7 @@ macro_rules! agg {
         #[kani::stub(vibesql_executor::evaluator::coercion::coerce_to_date, stub_coerce_to_date)]
         #[kani::stub(<vibesql_types::Date as std::fmt::Display>::fmt, stub_date_fmt)]
         #[kani::stub(<vibesql_types::Timestamp as std::fmt::Display>::fmt, stub_ts_fmt)]
+        #[kani::stub(std::fmt::format, crate::c03::format_stub)]
         fn $name() {
             let xs = [$(any_of(V::$v)),*];
             let mut acc = fresh(F::$f);
@@ -240,4 +241,66 @@ fn c07_new_unknown() {
     assert!(a.is_err(), "unknown aggregate names are rejected");
     kani::cover!(true, "reached");
     std::mem::forget(a);
+}
+
+// ------------------------------------------------------------------ SUM / AVG step kernels
+//
+// The accumulator's SUM/AVG step is `sum = add_sql_values(sum, value)` and AVG finalises with
+// `divide_sql_value(sum, count)`.  Whole accumulations with non-NULL values are out of CBMC's
+// reach (see the registry), so the step functions are checked directly with concrete operand
+// variants: the running total is exact, or NULL when it leaves the 64-bit range - never a
+// panic, never a wrapped value.
+macro_rules! sum_step {
+    ($name:ident, $l:ident, $r:ident) => {
+        #[kani::proof]
+        #[kani::unwind(8)]
+        fn $name() {
+            let a = any_of(V::$l);
+            let b = any_of(V::$r);
+            let r = s::add_sql_values(&a, &b);
+            match (exact(&a), exact(&b)) {
+                (Some(x), Some(y)) => {
+                    let want = x + y;
+                    if want >= i64::MIN as i128 && want <= i64::MAX as i128 {
+                        assert!(exact(&r) == Some(want), "SUM step is the exact sum");
+                    } else {
+                        assert!(r.is_null(), "a SUM step beyond 64 bits yields NULL, never a wrapped value");
+                    }
+                }
+                _ => assert!(r.is_null(), "SUM step with a NULL operand is NULL"),
+            }
+            kani::cover!(!r.is_null(), "a total");
+            kani::cover!(r.is_null(), "NULL");
+            std::mem::forget((r, a, b));
+        }
+    };
+}
+sum_step!(c07_sum_step_integer_integer, Integer, Integer);
+sum_step!(c07_sum_step_integer_bigint, Integer, Bigint);
+sum_step!(c07_sum_step_integer_smallint, Integer, Smallint);
+
+#[kani::proof]
+#[kani::unwind(8)]
+fn c07_sum_step_null() {
+    let b = any_of(V::Integer);
+    let r = s::add_sql_values(&SqlValue::Null, &b);
+    assert!(r.is_null(), "SUM step with a NULL total stays NULL");
+    kani::cover!(true, "reached");
+    std::mem::forget((r, b));
+}
+
+/// AVG finalisation: Integer total / positive count as DOUBLE/NUMERIC value.
+#[kani::proof]
+#[kani::unwind(8)]
+fn c07_avg_finalize() {
+    let total: i64 = kani::any();
+    let count: i64 = kani::any();
+    kani::assume(count >= 1 && count <= 4);
+    let r = s::divide_sql_value(&SqlValue::Integer(total), count);
+    let want = total as f64 / count as f64;
+    assert!(matches!(r, SqlValue::Numeric(q) if q == want), "AVG is total / count");
+    let n = s::divide_sql_value(&SqlValue::Null, count);
+    assert!(n.is_null(), "AVG of a NULL total is NULL");
+    kani::cover!(true, "reached");
+    std::mem::forget((r, n));
 }
